@@ -244,6 +244,9 @@ pub fn var_use_ty(v: &VarUse) -> Result<Ty, TypeErr> {
 // =============================================================================
 // Statements
 
+/// the pseudo label of `if (c) break;` (a conditional jump whose target is the end of the enclosing loop)
+pub const COND_BREAK: &str = "@break";
+
 #[derive(Clone, Debug, PartialEq)]
 pub enum Stmt {
     Call { opcode: u16, name: Option<String>, args: Vec<Expr>, pseudos: Vec<(String, Expr)> },
@@ -322,6 +325,7 @@ impl SNode {
             Stmt::TimeRel(e) => out.push_str(&format!("+{}:\n", e.print_top())),
             Stmt::Label(l) => out.push_str(&format!("{}:\n", l)),
             Stmt::Goto { label, time } => out.push_str(&format!("{}{}goto {}{};\n", pad, diff, label, goto_time(time))),
+            Stmt::CondGoto { unless, cond, label, .. } if label == COND_BREAK => out.push_str(&format!("{}{}{} ({}) break;\n", pad, diff, if *unless { "unless" } else { "if" }, cond.print_top())),
             Stmt::CondGoto { unless, cond, label, time } => out.push_str(&format!("{}{}{} ({}) goto {}{};\n", pad, diff, if *unless { "unless" } else { "if" }, cond.print_top(), label, goto_time(time))),
             Stmt::Interrupt(e) => out.push_str(&format!("{}interrupt[{}]:\n", pad, e.print_top())),
             Stmt::Raw(s) => out.push_str(&format!("{}{}{}\n", pad, diff, s)),
